@@ -226,6 +226,40 @@ def family():
     for v in (1, 3, 4):
         out.append(P("nonce_public_purpose_v%d" % v, "key-construction", prog([
             "let nb = Key::<32>::from([3u8; 32]); let _ = PasetoNonce::<V%d, Public>::from(&nb);" % v]), False, "PasetoNonce<V%d, Public> from &Key<32>" % v))
+    # ---- conversions between key / nonce types of different protocols (no From/Into/TryFrom path may exist)
+    for vx in (1, 2, 3, 4):
+        for vy in (1, 2, 3, 4):
+            if vx == vy:
+                continue
+            out.append(P("convert_symkey_v%d_into_v%d" % (vx, vy), "key-conversion", prog([
+                key_decl((vx, "Local"), "build"),
+                "let _k2: PasetoSymmetricKey<V%d, Local> = k.into();" % vy]), False, "PasetoSymmetricKey<V%d, Local> .into() PasetoSymmetricKey<V%d, Local>" % (vx, vy)))
+            out.append(P("convert_symkey_ref_v%d_from_v%d" % (vy, vx), "key-conversion", prog([
+                key_decl((vx, "Local"), "build"),
+                "let _k2 = PasetoSymmetricKey::<V%d, Local>::from(&k);" % vy]), False, "PasetoSymmetricKey<V%d, Local>::from(&PasetoSymmetricKey<V%d, Local>)" % (vy, vx)))
+            out.append(P("convert_private_v%d_into_v%d" % (vx, vy), "key-conversion", prog([
+                key_decl((vx, "Public"), "build"),
+                "let _k2: PasetoAsymmetricPrivateKey<V%d, Public> = k.into();" % vy]), False, "private key V%d .into() private key V%d" % (vx, vy)))
+            out.append(P("convert_public_v%d_into_v%d" % (vx, vy), "key-conversion", prog([
+                key_decl((vx, "Public"), "parse"),
+                "let _k2: PasetoAsymmetricPublicKey<V%d, Public> = k.into();" % vy]), False, "public key V%d .into() public key V%d" % (vx, vy)))
+            out.append(P("convert_nonce_v%d_into_v%d" % (vx, vy), "key-conversion", prog([
+                nonce_decl((vx, "Local")),
+                "let _n2: PasetoNonce<V%d, Local> = n.into();" % vy]), False, "PasetoNonce<V%d, Local> .into() PasetoNonce<V%d, Local>" % (vx, vy)))
+    for v in (1, 2, 3, 4):
+        out.append(P("symkey_public_default_v%d" % v, "key-conversion", prog([
+            "let _k: PasetoSymmetricKey<V%d, Public> = Default::default();" % v]), False, "PasetoSymmetricKey<V%d, Public> from Default" % v))
+        out.append(P("symkey_into_private_v%d" % v, "key-conversion", prog([
+            key_decl((v, "Local"), "build"),
+            "let _k2: PasetoAsymmetricPrivateKey<V%d, Public> = (&k).into();" % v]), False, "symmetric key V%d into private key" % v))
+        # nonce material sizes: 32 bytes for every version, 24 additionally for v2 only
+        out.append(P("nonce_v%d_from_key32" % v, "key-construction", prog([
+            "let nb = Key::<32>::from([3u8; 32]); let _ = PasetoNonce::<V%d, Local>::from(&nb);" % v]), True, "PasetoNonce<V%d, Local> from &Key<32>" % v))
+        out.append(P("nonce_v%d_from_key24" % v, "key-construction", prog([
+            "let nb = Key::<24>::from([3u8; 24]); let _ = PasetoNonce::<V%d, Local>::from(&nb);" % v]), v == 2, "PasetoNonce<V%d, Local> from &Key<24>" % v))
+        for n in (16, 48):
+            out.append(P("nonce_v%d_from_key%d" % (v, n), "key-construction", prog([
+                "let nb = Key::<%d>::from([3u8; %d]); let _ = PasetoNonce::<V%d, Local>::from(&nb);" % (n, n, v)]), False, "PasetoNonce<V%d, Local> from &Key<%d>" % (v, n)))
     seen = set()
     for p in out:
         assert p.ident not in seen, p.ident
